@@ -431,8 +431,16 @@ def floordiv(x, y, out=None, out_like=None, sizing='optimal', method='raw', **kw
         return real_part + 1j*imag_part
     
     def _floordiv_raw(x, y, n_frac):
-        precision_cast = (lambda m: np.array(m, dtype=object)) if n_frac >= _n_word_max else (lambda m: m)
-        return ((x.val * precision_cast(2**(n_frac - x.n_frac))) // (y.val * precision_cast(2**(n_frac - y.n_frac)))) * precision_cast(2**n_frac)
+        # floor(x / y) from the codes aligned to the finer of the two fraction lengths (integers only: no float factor, no dependence on the
+        # fraction length of the destination), then the whole quotient scaled to the destination
+        n_frac_xy = max(x.n_frac, y.n_frac)
+        raw_cast = _raw_cast(x, y, max(x.n_word + n_frac_xy - x.n_frac, y.n_word + n_frac_xy - y.n_frac) + 1)
+        x_raw = raw_cast(x.val) * raw_cast(2**(n_frac_xy - x.n_frac))
+        y_raw = raw_cast(y.val) * raw_cast(2**(n_frac_xy - y.n_frac))
+        if x.signed != y.signed and getattr(x_raw, 'dtype', None) is not None and x_raw.dtype != object:
+            # (numpy promotes int64 with uint64 to float64: both as signed integers; below 53 bits here, see _raw_cast)
+            x_raw, y_raw = np.asarray(x_raw).astype(np.int64), np.asarray(y_raw).astype(np.int64)
+        return utils.scale_raw(x_raw // y_raw, n_frac)
 
     def _floordiv_raw_complex(x, y, n_frac):
         precision_cast = (lambda m: np.array(m, dtype=object)) if n_frac >= _n_word_max else (lambda m: m)
